@@ -14,9 +14,9 @@ Ent(x) == [loc |-> x.loc, name |-> x.name, kind |-> x.kind, c |-> x.c]
 MF(m) == [k |-> m.k, w |-> m.w, d |-> m.d, pad |-> m.pad]
 StateOf(o) == [tree |-> {Ent(x) : x \in ToSet(o.tree)}, modeFile |-> MF(o.modeFile)]
 If(c, name) == IF c THEN {} ELSE {name}
-(* the UTC date before and after the command; when the command ran with TZ set to a zone far from UTC the    *)
-(* documentation does not say which calendar counts, so the neighbouring dates are not a violation         *)
-Days(r) == {r.today0, r.today1} \cup (IF r.tz = "" THEN {} ELSE {r.today0 - 1, r.today1 + 1})
+(* the UTC date before and after the command, whatever TZ the command ran with: the mode file's date is read  *)
+(* back as a UTC day and counter files begin at 00:00 UTC                                                  *)
+Days(r) == {r.today0, r.today1}
 UtcDays(r) == {r.today0, r.today1}
 Violated(r) ==
     LET c == r.cmd  s == StateOf(r.s)  t == StateOf(r.t) IN
